@@ -40,7 +40,8 @@ FixNames == {"chunk_readline",     \* chunked.py: readline after a chunk / in th
              "last_modified",      \* writer.py set_timestamp: unparseable Last-Modified ignored
              "win_names",          \* path.py safe_filename windows: names ending in "." or " "
              "sitemap_gzip",       \* scraper/sitemap.py: except OSError, EOFError, zlib.error
-             "pasv_range"}         \* ftp/util.py parse_address: numbers above 255 are a ValueError
+             "pasv_range",         \* ftp/util.py parse_address: numbers above 255 are a ValueError
+             "deflate_fallback"}   \* decompression.py: raw-deflate fallback replays everything fed so far (C19 repair)
 ASSUME Fixes \subseteq FixNames
 Fixed(n) == n \in Fixes
 
